@@ -113,7 +113,7 @@ func (g *G) Model(o ModelOpts) *rm.Model {
 		userTypes = append(userTypes, "employee")
 	}
 	if o.Conditions {
-		fams := []string{"int_lt", "str_eq", "bool_is", "in_list"}
+		fams := []string{"int_lt", "str_eq", "bool_is", "in_list", "uint_lt"}
 		n := 1 + g.Intn(2)
 		for i := 0; i < n; i++ {
 			f := Pick(g, fams)
@@ -519,7 +519,7 @@ func (g *G) condCtx(m *rm.Model, cond string, full bool) map[string]any {
 func (g *G) paramValue(typ string, mistype bool) any {
 	if mistype {
 		switch typ {
-		case "int":
+		case "int", "uint":
 			return true
 		case "string":
 			return float64(7)
@@ -531,6 +531,16 @@ func (g *G) paramValue(typ string, mistype bool) any {
 	}
 	switch typ {
 	case "int":
+		return float64(g.Intn(4))
+	case "uint":
+		// mostly small naturals; now and then a value a uint parameter must refuse (negative, fractional)
+		// or accept in another spelling (numeric string)
+		switch g.Intn(8) {
+		case 0:
+			return float64(-1 - g.Intn(3))
+		case 1:
+			return Pick(g, []any{"2", "-3", 1.5, -1e12})
+		}
 		return float64(g.Intn(4))
 	case "string":
 		return Pick(g, []string{"p", "q"})
